@@ -11,6 +11,7 @@ import PyaModel.Generated.FixConsts
 5. `get_line_range_for_node`.
 6. The line lexer.
 7. `NodeTransformer.generic_visit`: identity copy, exact replacement.
+8. Removing a statement: the live guard, straight-line def-use.
 -/
 set_option linter.unusedSimpArgs false
 set_option linter.unusedVariables false
@@ -1194,5 +1195,100 @@ theorem noneMask_subst (target : Nat) (r : Tree) : ∀ items : ItemList,
   | .cons .none rest => by simp only [substItems, noneMask, noneMask_subst target r rest]
   | .cons (.val v) rest => by simp only [substItems, noneMask, noneMask_subst target r rest]
   | .cons (.tree t) rest => by simp only [substItems, noneMask, noneMask_subst target r rest]
+/-! ## 8. Removing a statement: bindings -/
+
+theorem topLevelOk_cons (t : Target) (rest : TargetList) (v : List String)
+    (h : AssignStmt.topLevelOk ⟨.cons t rest, v⟩ = true) : (t.kind != "Starred") = true := by
+  unfold AssignStmt.topLevelOk AssignStmt.topLevelOk.go at h
+  simp only [Bool.and_eq_true] at h
+  exact h.1
+
+/-- **Tie to the live guard.** Whatever the regenerated guard accepts binds at most one name through its
+target list. (Proved against `Gen.removalGuard` as generated from the current source; an edit of the
+Python condition that admits chained or unpacking targets breaks this proof.) -/
+theorem removalGuard_single_target_binding (s : AssignStmt) (u : String)
+    (hg : Gen.removalGuard s u = true) (hw : s.topLevelOk = true) :
+    ∀ x ∈ s.targets.binds, ∀ y ∈ s.targets.binds, x = y := by
+  obtain ⟨targets, v⟩ := s
+  unfold Gen.removalGuard at hg
+  cases targets with
+  | nil => simp [TargetList.length] at hg
+  | cons t rest =>
+    cases rest with
+    | cons t2 r2 => simp [TargetList.length] at hg
+    | nil =>
+      have hk := topLevelOk_cons t .nil v hw
+      cases t with
+      | name x =>
+        intro a ha b hb
+        simp [TargetList.binds, Target.binds] at ha hb
+        rw [ha, hb]
+      | tuple ts => simp [TargetList.length, TargetList.nth, Target.isKind, Target.kind] at hg
+      | list ts => simp [TargetList.length, TargetList.nth, Target.isKind, Target.kind] at hg
+      | starred t => simp [Target.kind] at hk
+      | other k =>
+        intro a ha
+        simp [TargetList.binds, Target.binds] at ha
+
+theorem undefReads_congr : ∀ (p : List Stmt) (e1 e2 : List String), (∀ x, e1.contains x = e2.contains x) →
+    undefReads e1 p = undefReads e2 p := by
+  intro p
+  induction p with
+  | nil => intros; rfl
+  | cons s rest ih =>
+    intro e1 e2 h
+    simp only [undefReads]
+    congr 1
+    · apply List.filter_congr
+      intro x _
+      rw [h x]
+    · apply ih
+      intro x
+      simp only [List.contains_eq_mem, List.mem_append] at h ⊢
+      have := h x
+      simp only [decide_eq_decide] at this ⊢
+      rw [this]
+
+theorem undefReads_append : ∀ (a b : List Stmt) (env : List String),
+    undefReads env (a ++ b) = undefReads env a ++ undefReads (env ++ bindsOf a) b := by
+  intro a
+  induction a with
+  | nil => intro b env; simp [undefReads, bindsOf]
+  | cons s rest ih =>
+    intro b env
+    simp only [List.cons_append, undefReads, ih, bindsOf, List.append_assoc]
+
+/-- Bindings nobody reads are irrelevant to how the rest of the program resolves its names. -/
+theorem undefReads_irrelevant (bs : List String) : ∀ (post : List Stmt) (env : List String),
+    (∀ x ∈ bs, x ∉ readsOf post) → undefReads (env ++ bs) post = undefReads env post := by
+  intro post
+  induction post with
+  | nil => intros; rfl
+  | cons s rest ih =>
+    intro env h
+    simp only [undefReads]
+    congr 1
+    · apply List.filter_congr
+      intro x hx
+      have : x ∉ bs := fun hb => h x hb (by simp [readsOf, hx])
+      simp [this]
+    · rw [undefReads_congr rest (env ++ bs ++ s.binds) (env ++ s.binds ++ bs) (by
+        intro x
+        simp only [List.contains_eq_mem, List.mem_append, decide_eq_decide]
+        constructor <;> (intro hh; rcases hh with (hh | hh) | hh <;> simp [hh]))]
+      apply ih
+      intro x hx hr
+      exact h x hx (by simp [readsOf, hr])
+
+theorem not_undef_of_env : ∀ (p : List Stmt) (env : List String) (x : String), x ∈ env → x ∉ undefReads env p := by
+  intro p
+  induction p with
+  | nil => intro env x _ h; simp [undefReads] at h
+  | cons s rest ih =>
+    intro env x hx h
+    simp only [undefReads, List.mem_append, List.mem_filter] at h
+    rcases h with h | h
+    · simp [hx] at h
+    · exact ih (env ++ s.binds) x (by simp [hx]) h
 
 end Pya.C16
